@@ -1,0 +1,98 @@
+//go:build verif
+
+// Package vhook provides a scheduling hook for verification builds. With the
+// "verif" build tag, Jitter perturbs the completion order of the worker
+// goroutines that call it, as a pure function of (seed, site, record index),
+// and counts how often a later record overtook an earlier one.
+package vhook
+
+import (
+	"os"
+	"runtime"
+	"strconv"
+	"sync"
+	"sync/atomic"
+	"time"
+)
+
+var (
+	seed       uint64 // 0 = jitter off
+	maxMicros  uint64 = 300
+	inversions int64
+	calls      int64
+	mu         sync.Mutex
+	lastIdx    = map[string]int{}
+)
+
+func init() {
+	if s := os.Getenv("VERIF_JITTER"); s != "" {
+		if n, err := strconv.ParseUint(s, 10, 64); err == nil {
+			seed = n
+		}
+	}
+	if s := os.Getenv("VERIF_JITTER_MAXUS"); s != "" {
+		if n, err := strconv.ParseUint(s, 10, 64); err == nil {
+			maxMicros = n
+		}
+	}
+}
+
+// Configure sets the jitter seed (0 switches jitter off) and clears the counters
+func Configure(s uint64, maxMicroseconds uint64) {
+	mu.Lock()
+	seed = s
+	if maxMicroseconds > 0 {
+		maxMicros = maxMicroseconds
+	}
+	lastIdx = map[string]int{}
+	mu.Unlock()
+	atomic.StoreInt64(&inversions, 0)
+	atomic.StoreInt64(&calls, 0)
+}
+
+// Inversions returns how many times a record reached a hook after a record with a higher index had
+func Inversions() int64 { return atomic.LoadInt64(&inversions) }
+
+// Calls returns how many times the hook was reached
+func Calls() int64 { return atomic.LoadInt64(&calls) }
+
+func mix(x uint64) uint64 {
+	x ^= x >> 33
+	x *= 0xff51afd7ed558ccd
+	x ^= x >> 33
+	x *= 0xc4ceb9fe1a85ec53
+	x ^= x >> 33
+	return x
+}
+
+// Jitter delays the calling worker pseudo-randomly before it passes record idx on
+func Jitter(site string, idx int) {
+	atomic.AddInt64(&calls, 1)
+	mu.Lock()
+	s := seed
+	mu.Unlock()
+	if s != 0 {
+		h := s
+		for i := 0; i < len(site); i++ {
+			h = mix(h ^ uint64(site[i]))
+		}
+		h = mix(h ^ uint64(idx)*0x9e3779b97f4a7c15)
+		switch h % 4 {
+		case 0:
+			// pass straight through
+		case 1:
+			for i := uint64(0); i < 1+(h>>8)%8; i++ {
+				runtime.Gosched()
+			}
+		default:
+			time.Sleep(time.Duration((h>>16)%(maxMicros+1)) * time.Microsecond)
+		}
+	}
+	mu.Lock()
+	if last, ok := lastIdx[site]; ok && idx < last {
+		atomic.AddInt64(&inversions, 1)
+	} else {
+		lastIdx[site] = idx
+	}
+	mu.Unlock()
+}
